@@ -74,3 +74,7 @@ add("C18", "rapid-generated multi-package programs and goroutine workloads under
     "Generated-workload search: 2-4 generated packages linked into one -race binary, 2-32 goroutines released by a barrier with injected scheduling points and GOMAXPROCS in {2,8,16}; any race report or any result differing from the sequential run is a violation.",
     "The harness does not own the schedule; the race detector flags unsynchronised shared accesses independent of timing, logic-only interference shows only on the schedules that happened.",
     "DESIGN.md §3 C18")
+add("C06", "rapid-generated (skeleton x type universe x parameter typing x method layout) packages whose legality is known by construction; verdict, diagnostic, compilation and run-time value flow checked end to end with the real go list",
+    "Generated-input search over ~10^4 combinations (sampled without repetition): lox must accept exactly the legal bindings and name the production or method otherwise; accepted packages are compiled and run, and every action parameter is compared with the value its producer returned (identity for pointers/chans/funcs, zero for an absent optional).",
+    "Legality follows Go assignability by construction of the type universe (no call to go/types in the oracle).",
+    "DESIGN.md §3 C06")
